@@ -194,7 +194,7 @@ class C19(Prop):
                 re = f_of_bits(int(v[4 * n + 2 * bi]), 1); im = f_of_bits(int(v[4 * n + 2 * bi + 1]), 1)
                 direct = sum((xs[n - m] / 4096) * cmath.exp(-2j * math.pi * f * (119 - m) / 48000) for m in range(120))
                 ctx.evaluations += 1
-                tol = 1e-6 if d else 1e-2
+                tol = 1e-6 if d else max(1e-2, 6e-8 * nlong)      # binary32: rounding error of the undamped recursion grows with the run length (n * eps)
                 if abs(abs(complex(re, im)) - abs(direct)) > tol * abs(direct):
                     ctx.violate(f"dsp:sdft-long:{d}", f"sliding DFT<{'double' if d else 'float'}> at {f} Hz after {nlong} samples of a bin-centred tone: |{abs(complex(re, im)):.4f}| vs "
                                 f"direct DFT of the latest window |{abs(direct):.4f}| (decay or drift of the recursion)",
